@@ -38,15 +38,18 @@ def iterparseGo (s : Array Nat) : Nat → Nat → PState → Option (List CP)
         -- parse a character range: consume the end character (and a backslash before it)
         let k1 := k + 1
         let e0 := s[k1]!
-        let (k2, e, bad) :=
+        -- `esc`: the range ends with an escaped backslash (`escaped = True`, F13g repaired)
+        let (k2, e, bad, esc) :=
           if e0 == cpBackslash && k1 < n - 1 then
-            if isEscapable s[k1 + 1]! then (k1 + 1, s[k1 + 1]!, false)
-            else if isMultiEsc s[k1 + 1]! then (k1, e0, true)
-            else (k1, e0, false)
-          else (k1, e0, false)
+            if isEscapable s[k1 + 1]! then (k1 + 1, s[k1 + 1]!, false, false)
+            else if isMultiEsc s[k1 + 1]! then (k1, e0, true, false)
+            else if s[k1 + 1]! == cpBackslash then (k1, e0, false, true)
+            else (k1, e0, false, false)
+          else (k1, e0, false, false)
         if bad then none
         else if st.char > e then none
-        else (iterparseGo s (fuel - (k2 - k)) (k2 + 1) { st with onRange := true }).map (.rng st.char (e + 1) :: ·)
+        else (iterparseGo s (fuel - (k2 - k)) (k2 + 1) { st with onRange := true, escaped := esc }).map
+              (.rng st.char (e + 1) :: ·)
     else if isSpecial c then
       (iterparseGo s fuel (k + 1) { escaped := false, onRange := false, char := c }).map (.one c :: ·)
     else if isBracket c then
